@@ -10,6 +10,10 @@ import (
 )
 
 func main() {
+	if len(os.Args) > 1 && os.Args[1] == "c07" {
+		c07Print([]int{32, 2771, 4689})
+		return
+	}
 	if len(os.Args) > 2 && os.Args[1] == "c12" {
 		c12Main(os.Args[2])
 		return
